@@ -39,7 +39,8 @@ EXPLANATION = (
     'R5: emitters cover all fields/tags (is_*, get_*, creators guarded by the Void test the '
     'right way round), every type gets <T>_validator, every route is emitted with its name, '
     'version, deprecation flag, three validators and attrs, and listed in ROUTES.'
-    ' R6 (generator totality, stonelint.totality): python_types can only produce modules if it completes -- IR attribute reads are defined for every reaching class, raises/asserts are unreachable dispatch defaults, doc-tag defaults, configuration conditions or recorded preconditions.')
+    ' R6 (generator totality, stonelint.totality): python_types can only produce modules if it completes -- IR attribute reads are defined for every reaching class, raises/asserts are unreachable dispatch defaults, doc-tag defaults, configuration conditions or recorded preconditions.'
+    ' RD (decision drift, stonelint.conddrift): the tests of the functions this property is anchored in (stonelint.ownership) are compared with reference/conditions.json; a relation, polarity or connective changed over the same operands, or an operand purely added or dropped, is a violation; re-spellings and new or removed tests are not claimed.')
 ASSUMPTIONS = [
     'identifiers are not Python reserved words (as the property assumes)',
     'fmt_pascal / fmt_underscores are injective enough on spec identifiers (not decided)',
@@ -417,3 +418,7 @@ def run(pm, ctx):
         ctx.check('C09-R7', len(rrel) >= 2, 'bv.%s constructor relations recognised' % bvc, fb.loc,
                   msg='fewer constructor constraints recognised in bv.%s than confirmed by '
                       'reading' % bvc, key='C09-R7|%s|recognised' % fb.qualname)
+
+    from ..conddrift import run_decisions
+    from ..ownership import OWN
+    run_decisions(pm, ctx, 'C09-RD', OWN['C09'])
